@@ -80,6 +80,10 @@ def check(P, rep):
             ok, _, w = mg(g, [e.node], (), edges(allow))
             rep.check(ok, 'C07.T', 'interchain_token::%s:debit-allowance' % en,
                       'delegated debit of from is must-guarded by allowance(from, spender) >= amount', esite(g, e), None, w)
+    # the allowance that stands in for the holder's authorisation must be a LIVE one: a lapsed approval is no authorisation (the expiry
+    # clauses of the token rules are part of this property's verdict)
+    include_rules(P, rep, 'C07.T', 'c12', lambda o: o['rule'] in ('C12.R5',),
+                  'a delegated debit draws only on an unexpired allowance of the holder', 1)
     # mint_from: credit guarded by auth(minter) and stored membership of the same minter
     if 'mint_from' in P.crates['interchain_token'].entries:
         g = P.graph('interchain_token', 'mint_from')
